@@ -56,6 +56,23 @@ class CallGraph:
                         'from_expansion': t.get('from_expansion', False)}
                 fo = t['func']
                 if 'fn' not in fo:
+                    pl = fo.get('pl') or {}
+                    src = pl.get('l', 0) if fo.get('k') in ('copy', 'move') and not pl.get('p') else 0
+                    for _ in range(4):      # `_t = copy _param; _t(..)`: follow plain copies back to the parameter
+                        if not src or src <= b['arg_count']:
+                            break
+                        defs = [st2['rv'] for bl2 in b['blocks'] for st2 in bl2['stmts'] if st2['k'] == 'assign' and not st2['pl']['p'] and st2['pl']['l'] == src]
+                        if len(defs) == 1 and defs[0]['k'] == 'use' and defs[0]['op'].get('k') in ('copy', 'move') and not defs[0]['op']['pl']['p']:
+                            src = defs[0]['op']['pl']['l']
+                        else:
+                            src = 0
+                    if 1 <= src <= b['arg_count']:
+                        # a function pointer received as a parameter: whatever a local caller passes is an edge from
+                        # that caller (fn items mentioned in a body are edges of that body, see above); a public
+                        # function may also receive it from the user
+                        if b.get('public'):
+                            ucb.append((site, 'fn pointer parameter'))
+                        continue
                     unres.append(('indirect', site))
                     continue
                 c = fo['fn']
